@@ -42,6 +42,10 @@ BUILD_BREAKERS = {
 }
 
 
+# one-expression modules for defects that were found by the thorough tier and fixed in the tree (always exercised)
+REGRESSION_PROBES = ["(-(10 ** 5000)).bit_length()", "(-(10 ** 5000) + 1, 10 ** 5000)[0].bit_length()"]
+
+
 def _open_breakers():
     keys = {f.get("key") for f in harness.load_findings() if f.get("property") == PID and f.get("status") == "open"}
     return sorted(k for k in BUILD_BREAKERS if k in keys)
@@ -404,6 +408,7 @@ def run(ctx):
     nmods = 1 if ctx.quick else 20
     open_keys = _open_breakers()
     probes = [(k, j, t) for k in open_keys for j, t in enumerate(BUILD_BREAKERS[k][1])]
+    probes += [("regression", j, t) for j, t in enumerate(REGRESSION_PROBES)]
     ctx.pmap(_shard, [(ctx.seed, s, nmods, open_keys, probes[s] if s < len(probes) else None) for s in range(16)])
     ctx.extra["build_breaking_findings_excluded_from_generation_and_probed_separately"] = open_keys
     findings = harness.load_findings()
